@@ -159,6 +159,7 @@ def run(an: Analysis, rep):
     rep.run(c07.r073, an, shj, enc)
     rep.run(c07.r07a, an, shj, enc)
     rep.run(c07.r07b, an, shj, defs)
+    rep.run(c07.r07r, an, shj)
     from .common import rebuild_rule
     rep.run(rebuild_rule, an, shj, "R07.8", ["from_json"])
 
